@@ -100,6 +100,15 @@ func genC11(r *Rand, tier string) *Case {
 		c.Variant = "ssl-inside-tls"
 	}
 	cc.TLS = tc
+	if r.Chance(1, 2) {
+		// a client that takes its (simulated) time between steps: the upgraded
+		// session has no time limit of its own
+		for i := range cc.Steps {
+			if r.Chance(1, 3) {
+				cc.Steps[i].IdleMs = r.PickInt(50, 3000, 11000, 61000, 3600000)
+			}
+		}
+	}
 	// (no one-byte segmentation here: every read is a schedule decision and a
 	// TLS handshake moves several KiB)
 	switch r.Intn(4) {
@@ -111,6 +120,18 @@ func genC11(r *Rand, tier string) *Case {
 		cc.Cuts = []int{5, 500, 37}
 	case 3:
 		cc.Cuts = []int{r.PickInt(1000, 5000)}
+	}
+	var input int64
+	for _, st := range cc.Steps {
+		for i := range st.Msgs {
+			for _, ch := range st.Msgs[i].Encode() {
+				input += ch.Len()
+			}
+		}
+	}
+	if input > 20000 {
+		// every read is a schedule decision: no fine segmentation of bulk input
+		cc.Cuts = nil
 	}
 	c.Sched = &SchedCase{Strategy: r.Pick("uniform", "pct", ""), Depth: 2, MaxSteps: 400000}
 	return c
@@ -238,6 +259,11 @@ func checkC11(x *Exec, c *Case) ([]Violation, bool) {
 		add("stuffed-plaintext-executed", "the reply to the stuffed plaintext query was delivered inside TLS")
 	}
 	// liveness
+	if r.Outcome == RunBudget {
+		// the decision budget ran out before the run ended: inconclusive
+		x.Probe("run_budget_inconclusive")
+		return viol, false
+	}
 	if r.Outcome != RunIdle || cs.Closed == 0 {
 		add("tls-run-stuck", fmt.Sprintf("the run did not finish: outcome=%d parked=%v closed=%d client events=%v", r.Outcome, r.Stuck, cs.Closed, cs.ClientEvents))
 		return viol, true
